@@ -60,7 +60,7 @@ def sc(**kw):
     """constants of SimCrash"""
     c = dict(LatSteps=1, Tick=2, Cap=1, MaxConn=1, Ops={"listen", "accept", "connect", "read", "write"},
              Faults={"crash", "bounce"}, Targets={1}, MaxOps=5, MaxFaults=1, MaxSteps=5, Lis=1,
-             WriterFixed=True, HalfOpenFixed=True)
+             LatChoices=set(), MaxLat=0, Writers={1, 2}, WriterFixed=True, HalfOpenFixed=True)
     c.update(kw)
     return c
 
@@ -114,6 +114,9 @@ def mc_configs(pid, tier):
             ("mc_crash_connector", sc(Ops=TCP, Targets={2}, Lis=1, MaxOps=5, MaxFaults=1, MaxSteps=5)),
             # UDP socket + multicast membership + background tasks, both hosts crashable, two cycles
             ("mc_crash_udp", sc(Ops=UDP, Targets={1, 2}, MaxOps=4 if not q else 3, MaxFaults=2, MaxSteps=4 if not q else 3)),
+            # latency changed between sends: segments overtake each other, reorder buffer, capacity 2
+            ("mc_crash_reorder", sc(Ops={"listen", "accept", "connect", "write", "read"}, Faults={"crash"}, Targets={1},
+                                    Writers={2}, Cap=2, LatChoices={1, 3}, MaxLat=2, MaxOps=6, MaxFaults=1, MaxSteps=6)),
             # connector's turn first (Lis = 2): accept() returns at once and the stream is used in the same turn
             ("mc_crash_conn_first", sc(Ops=TCP, Targets={1}, Lis=2, MaxOps=4 if q else 5, MaxFaults=1 if q else 2,
                                        MaxSteps=4 if q else 5)),
@@ -158,6 +161,11 @@ def gen_configs(pid, tier):
                 # a writer parked for send credit when the reader's host crashes (needs 5 operations)
                 ("gen_crash_writer", sc(Ops={"listen", "accept", "connect", "write"}, Faults={"crash"}, Targets={1},
                                         MaxOps=5, MaxFaults=1, MaxSteps=6)),
+                # segments overtake each other (set_link_latency between sends): the crashed host's unread data
+                # sits only in the reorder buffer, the peer is parked in write (capacity 2, needs 6 operations)
+                ("gen_crash_reorder", sc(Ops={"listen", "accept", "connect", "write"}, Faults={"crash"}, Targets={1},
+                                         Writers={2}, Cap=2, LatChoices={1, 3}, MaxLat=2, MaxOps=6, MaxFaults=1,
+                                         MaxSteps=6)),
                 # the mirror image: the acceptor is the parked writer, the connector holds unread data and crashes
                 ("gen_crash_writer_acc", sc(Ops={"listen", "accept", "connect", "write"}, Faults={"crash"}, Targets={2},
                                             MaxOps=5, MaxFaults=1, MaxSteps=6))]
@@ -214,6 +222,8 @@ def need_actions(pid, consts):
                "write": "CmdWriteAny", "ubind": "CmdUbind", "usend": "CmdUsend", "bg": "CmdBg"}
         need += [ops[o] for o in consts["Ops"]]
         need += [{"crash": "CrashAny", "bounce": "BounceAny"}[f] for f in consts["Faults"]]
+        if consts["MaxLat"] > 0:
+            need.append("SetLat")
         return need
     need = ["Register", "StepBegin", "TurnBeginAny", "EvSample", "TurnEnd", "StepEnd"]
     if "run" in consts["CtlOps"]:
@@ -239,6 +249,7 @@ def impl_trace_consts(pid, a):
     if is_crash(pid):
         return dict(LatSteps=a["lat"], Tick=a["tick"], Cap=a["cap"], MaxConn=100000, Ops=TCP | UDP,
                     Faults={"crash", "bounce"}, Targets={1, 2}, MaxOps=10 ** 6, MaxFaults=10 ** 6, MaxSteps=10 ** 6,
+                    LatChoices=set(range(1, 17)), MaxLat=10 ** 6, Writers={1, 2},
                     WriterFixed=True, HalfOpenFixed=True, Lis=a.get("lis", 1))
     return dict(Tick=a["tick"], Duration=a["duration"], Epoch=a["epoch"], MaxNodes=1000, Kinds=KINDS, Waits=set(),
                 MaxPat=0, Outs=set(), TWaits=set(), MaxTPat=0, TOuts=set(), RandomOrder=True, CtlOps=ALL_OPS,
